@@ -235,7 +235,7 @@ class NestGen:
         if loopvars:
             opts += [loopvars[-1], "forloop.index", f"{loopvars[-1]} | append: '-'"]
         if caps:
-            opts += [caps[-1], f"{caps[-1]} | append: {caps[-1]}", f"{caps[-1]} | size"]
+            opts += [caps[-1], f"{caps[-1]} | append: 'q'", f"{caps[-1]} | size"]
         return r.choice(opts)
 
     def out_expr(self, loopvars: list[str], caps: list[str], params: list[str]) -> str:
@@ -246,7 +246,7 @@ class NestGen:
             if len(loopvars) > 1:
                 opts.append(loopvars[0])
         if caps:
-            opts += [caps[-1], caps[-1]]
+            opts += [caps[-1]]
         if params:
             opts += params
         return r.choice(opts)
@@ -440,6 +440,10 @@ class NestGen:
             name = f"b{self.n_blk}"
             self.n_blk += 1
             default = [["t", r.choice(self.text)], ["o", "s1"]]
+            if r.random() < 0.35:
+                # an assignment made by the parent block (runs in the outer context when the
+                # overriding block evaluates block.super)
+                default.append(["a", r.choice(["a5", "a6"]), self.value_expr([], [])])
             if r.random() < 0.7:
                 src, opts, ln = self.iterable(5)
                 base.append(["for", "o0", src, opts, [self.mark(), ["blk", name, default]], None])
@@ -452,8 +456,10 @@ class NestGen:
         for name, p in prod_at.items():
             if r.random() < 0.85:
                 b = self.body(-1, 1, 1 if p > 1 else 0, p, [], [], [], False, [], top=True)
-                if r.random() < 0.4:
-                    b.append(["o", "block.super"])
+                if r.random() < 0.5:
+                    b.insert(r.randint(0, len(b)), ["o", "block.super"])
+                    if r.random() < 0.6:
+                        b.append(["a", r.choice(["a1", "a2"]), self.value_expr([], [])])
                 root.append(["blk", name, b])
         partials["base"] = base
         return root
